@@ -60,7 +60,10 @@ EqReasons(e) ==
    \cup (IF e.h \in {"error", "neterror"} /\ \E i \in its : i.n = 1 /\ i.rcode # "SERVFAIL"
          THEN {"TransportEquivalence: a handler error is not SERVFAIL everywhere"} ELSE {})
 
-Reasons(e) == IF e.ev = "Eq" THEN EqReasons(e) ELSE InReasons(e)
+\* many well-formed queries over one long-lived connection: each is an accepted query of its own
+ReuseReasons(e) == IF e.n = e.cnt THEN {}
+                   ELSE {"AcceptedAnswered: not every well-formed query sent over one long-lived connection got its own answer"}
+Reasons(e) == IF e.ev = "Eq" THEN EqReasons(e) ELSE IF e.ev = "Reuse" THEN ReuseReasons(e) ELSE InReasons(e)
 
 TraceInit == Init /\ t = "udp" /\ l = 1
 TraceNext == /\ l <= Len(Trace) /\ l' = l + 1 /\ UNCHANGED vars
